@@ -32,7 +32,7 @@ EXPLANATION = ("_DBCreator._id_handler is executed symbolically for every id_spe
 TRUSTED = ["contracts/importer.py (counter map as solver array)", "T3 SQL model"]
 ASSUMPTIONS = ["A-S1 sqlite3 PRIMARY KEY semantics", "constants.always_return_list is True during import (A-G)"]
 PRECONDITIONS = ["id_spec entries are attribute names (str), ':field:' strings or callables"]
-FUNCTIONS = ["gffutils.create:_DBCreator._id_handler", "gffutils.create:_DBCreator._increment_featuretype_autoid",
+FUNCTIONS = ["gffutils.create:_GTFDBCreator._update_relations", "gffutils.create:_DBCreator._finalize", "gffutils.interface:FeatureDB.update", "gffutils.create:_DBCreator._id_handler", "gffutils.create:_DBCreator._increment_featuretype_autoid",
              "gffutils.interface:FeatureDB.__getitem__", "gffutils.interface:FeatureDB._feature_returner", "gffutils.feature:Feature.__init__"]
 
 
